@@ -57,3 +57,16 @@ Proof. repeat constructor; cbn; discriminate. Qed.
 Example C19_hyp_csv : chain 0 [ {| c_dep := 10; c_arr := 20; c_delta := 0.2; c_conn := false |};
                                 {| c_dep := 30; c_arr := 45; c_delta := 0.3; c_conn := true |} ].
 Proof. cbn. repeat split; discriminate. Qed.
+
+(* ---- the executable (Q) instance that is run against /repo and the proof (R) instance agree (Transfer*.v) ---- *)
+From Coq Require Import QArith Qreals.
+From Param Require Import Param.
+From SV Require Import Transfer TransferAll.
+Theorem C19_exec_stat_vehicle_is_proof_model : forall tbl ms buf days trips trips', list_R _ _ (SV_o_Gen_o_strip_R Q R QR) trips trips' ->
+  SV_o_Gen_o_sstate_R Q R QR (@stat_vehicle Q (QNum tbl) ms buf days trips) (@stat_vehicle R RNum (Q2R ms) (Q2R buf) days trips').
+Proof. exact stat_vehicle_transfer. Qed.
+Print Assumptions C19_exec_stat_vehicle_is_proof_model.
+Theorem C19_exec_csv_vehicle_is_proof_model : forall tbl ms stop rows rows', list_R _ _ (SV_o_Gen_o_crow_R Q R QR) rows rows' ->
+  SV_o_Gen_o_cstate_R Q R QR (@csv_vehicle Q (QNum tbl) ms stop rows) (@csv_vehicle R RNum (Q2R ms) stop rows').
+Proof. exact csv_vehicle_transfer. Qed.
+Print Assumptions C19_exec_csv_vehicle_is_proof_model.
